@@ -249,6 +249,42 @@ def make_cases(ck, n):
     return cases
 
 
+INLINE_EXPRS = ["amount", "amount * qty", "amount / qty", "amount // 100", "amount // qty", "amount % 7", "amount / 4", "(amount + qty) // 3",
+                "CASE WHEN qty > 1 THEN amount // 2 ELSE amount END", "amount - qty / 2"]
+
+
+def inline_measures(ck, rng, n, stats):
+    """measures declared only as SQL text `AGG(expr)` mean that text: compile() rows vs the hand-written statement
+    `SELECT <dim>, AGG(expr) FROM t GROUP BY 1` on the same DuckDB database (engine operators /, //, % included)"""
+    from sidemantic import Dimension, Metric, Model, SemanticLayer
+    for _ in range(n):
+        table = S.gen_table(rng, rng.choice([8, 20]))
+        ci, qi = table["cols"].index("amount"), table["cols"].index("qty")
+        for r in table["rows"]:
+            if r[ci] is not None:
+                r[ci] = r[ci] * rng.choice([1, 7, 50, 150])     # quotients with fractional part >= .5 and < .5
+        specs = [(f"x{i}", rng.choice(["SUM", "AVG", "MIN", "MAX", "MEDIAN"]), rng.choice(INLINE_EXPRS)) for i in range(rng.choice([1, 2, 3]))]
+        layer = SemanticLayer(auto_register=False)
+        layer.add_model(Model(name="orders", table="orders_t", primary_key="id", dimensions=[Dimension(name="status", type="categorical")],
+                              metrics=[Metric(name=nm, sql=f"{agg}({e})") for nm, agg, e in specs]))
+        con = layer.conn
+        con.execute("SET threads=1")
+        S.load_table(con, "orders_t", table)
+        grouped = rng.random() < 0.7
+        try:
+            sql = layer.compile(metrics=[f"orders.{nm}" for nm, _, _ in specs], dimensions=["orders.status"] if grouped else [])
+            got = canon_rows([list(r) for r in con.execute(sql).fetchall()])
+        except Exception as e:  # noqa: BLE001
+            ck.fail_input(f"measures declared as SQL text {specs} do not compile / execute: {type(e).__name__}", {"specs": specs, "table": table, "error": repr(e)[:300]})
+            continue
+        ref_sql = "SELECT " + ("status, " if grouped else "") + ", ".join(f"{agg}({e})" for _, agg, e in specs) + " FROM orders_t" + (" GROUP BY 1" if grouped else "")
+        want = canon_rows([list(r) for r in con.execute(ref_sql).fetchall()])
+        stats["inline_cases"] = stats.get("inline_cases", 0) + 1
+        if not bag_equal(got, want):
+            ck.fail_input(f"measures declared as SQL text {[f'{a}({e})' for _, a, e in specs]} return different rows than that text evaluated directly",
+                          {"specs": specs, "table": table, "grouped": grouped, "compiled_rows": str(got)[:600], "direct_rows": str(want)[:600], "sql": sql[:1200]})
+
+
 def run(ck: Check):
     ck.prove("SideVerif.Properties.C01", ["SideVerif.Proofs.Fusion", "SideVerif.Proofs.SpecFlat"])
     n = 2500 if ck.tier == "thorough" else 130
@@ -275,10 +311,11 @@ def run(ck: Check):
         directed_search(ck, [c for c in cases if c.get("_mismatch")], stats)
     if stats["disagree"] == 0:
         ck.obligation("correspondence C01: SQLGenerator vs genSingle (structural + behavioural)", True, f"{len(cases)} cases agree")
+    inline_measures(ck, ck.rng, (300 if ck.tier == "thorough" else 40) * (3 if ck.broken else 1), stats)
     aggs = Counter(x["agg"] for c in cases for x in c["model"]["measures"])
     ck.coverage.update({
-        "evaluations": len(cases), "distinct_nontrivial": len(stats["nontrivial"]),
-        "rule": "random model (table/sql-backed, single/composite pk, {model} placeholders, expression dims, time dims with base granularity, every aggregation, metric filters) x table (0..30 rows, NULLs, duplicates, negatives) x 3 queries (dims/metrics subsets, granularities, filters of every form incl. hostile literals and metric-value filters, order/limit/offset incl. 0, ungrouped, aliases); non-trivial = table has >= 2 rows and the query selects something",
+        "evaluations": len(cases) + stats.get("inline_cases", 0), "distinct_nontrivial": len(stats["nontrivial"]),
+        "rule": "measures declared only as SQL text AGG(expr) over engine operators (/, //, %, CASE) vs that text evaluated directly; random model (table/sql-backed, single/composite pk, {model} placeholders, expression dims, time dims with base granularity, every aggregation, metric filters) x table (0..30 rows, NULLs, duplicates, negatives) x 3 queries (dims/metrics subsets, granularities, filters of every form incl. hostile literals and metric-value filters, order/limit/offset incl. 0, ungrouped, aliases); non-trivial = table has >= 2 rows and the query selects something",
         "outcome_distribution": dict(stats["outcomes"]), "aggregations": dict(aggs), "disagreements": stats["disagree"], "cases_inside_theorem_C01_grouped": stats.get("covered", 0),
         "traces_validated_against_impl": len(cases),
         "samples": [strip(cases[1]), strip(cases[-1])],
